@@ -126,6 +126,7 @@ func c16Dag(h *bdHome, self string, nsteps int, handler bool) (loc, marker strin
 	loc = filepath.Join(h.dags, "one.yaml")
 	marker = filepath.Join(h.root, "marker.txt")
 	var b strings.Builder
+	b.WriteString("histRetentionDays: 1\n")
 	if handler {
 		fmt.Fprintf(&b, "handlerOn:\n  exit:\n    command: %s\n", yq(fmt.Sprintf("%s c16step %s onexit 300", self, marker)))
 	}
@@ -236,6 +237,29 @@ func c16Trial(c *core.Ctx, idx int, self string, vi int, p2kind string, nsteps i
 	}
 	if paused {
 		c.Count("p1_held", 1)
+		// the active run has been going on for longer than the DAG's history retention
+		// (1 day): a start that is refused must not prune the active run's own record
+		files, _ := filepath.Glob(filepath.Join(h.data, "*", "*.dat"))
+		old := time.Now().Add(-48 * time.Hour)
+		nEnd := 0
+		for _, e := range readMarker(marker) {
+			if e.Kind == "END" {
+				nEnd++
+			}
+		}
+		total := nsteps
+		if handler {
+			total++
+		}
+		if nEnd >= total {
+			files = nil // the first run has done all its work: it may legitimately be over and pruned
+		}
+		for _, f := range files {
+			if retryReq == "" || !strings.Contains(f, retryReq[:8]) {
+				_ = os.Chtimes(f, old, old)
+				c.Count("active_run_files_backdated", 1)
+			}
+		}
 	}
 	nBefore := len(readMarker(marker))
 	// P2
